@@ -165,6 +165,8 @@ class Names:
     def value(self, kind, p_unknown, batch_ok=True):
         """Argument for a module-list call of the given kind."""
         rng = self.rng
+        if kind != "have_name_matching" and rng.random() < 0.03:
+            return []  # an empty batch names nothing: the side stays unspecified
         if kind in ("are_named", "are_sub_modules_of"):
             pool = self.mods
             if kind == "are_sub_modules_of":
